@@ -138,6 +138,7 @@ func writeEvidence(e *engine, prop, tier string, seed int, results []*obligation
 			"stdlib_functions_executed":     stdl,
 			"native_replays":                replayed,
 			"encoder_selftest":              e.selftest,
+			"encoder_operator_differential": e.opsDiff,
 			"observed_values_compared_engine_vs_native": obsCompared,
 			"known_findings_seen":           known,
 			"inconclusive":                  incon,
